@@ -105,6 +105,8 @@ func specsC03(tier string) []seqmc.Spec {
 			cfg.ops = append(cfg.ops, atomic("t1", "k", ts, 1, ts))
 		}
 		cfg.ops = append(cfg.ops, upd("t2", "x", 1, 1), updO("t1", "o", "x", 1, 1))
+		// decimals that differ only beyond float32 resolution, different precision
+		cfg.ops = append(cfg.ops, upd("t1", "dec", 1, 1001), upd("t1", "dec", 2, 1002), upd("t1", "dec", 3, 1001))
 		for _, q := range []string{"x", "a", "a/b", "*", "k"} {
 			cfg.ops = append(cfg.ops, del("t1", q, 3))
 		}
